@@ -777,12 +777,14 @@ package spec
 //@   requires s != nil
 //@   assigns  nothing
 //@   ensures  result != nil
+//@   ensures  [C16,C17,C05,C18,C10] clone-is-a-new-cache @@ freshObj(payload(result)) && holds(result, "*simpleCache") && asPtr(result, "*simpleCache").store != s.store
 
 //@ func cacheOrDefault
 //@   property C16, C04
 //@   assigns  nothing
 //@   ensures  result != nil
 //@   ensures  cache != nil ==> result == cache
+//@   ensures  [C16,C17,C05,C18,C10] private-cache-when-none-is-supplied @@ cache == nil ==> freshObj(payload(result))
 
 //@ func optionsOrDefault
 //@   property C10, C16, C11
